@@ -126,13 +126,36 @@ def object_digest(capellambse, mdl, elem, with_backrefs: bool) -> dict:
             continue
         try:
             v = canon(getattr(obj, name))
-            if isinstance(acc, capellambse.model.ReferenceSearchingAccessor) and isinstance(v, list):
-                # back-references are found by scanning file after file: their order is not a model property
+            if isinstance(v, list) and (isinstance(acc, capellambse.model.ReferenceSearchingAccessor)
+                                        or type(acc).__name__ in SCAN_BASED):
+                # back-references / relation lookups are built on model.search(): found file after file,
+                # type after type - their order is not a model property
                 v = sorted(v, key=str)
             d["." + name] = v
         except Exception as e:  # noqa: BLE001
             d["." + name] = f"!{type(e).__name__}"
     return d
+
+
+_LINK_XT: set | None = None
+
+
+def raw_read_cause(capellambse, els_m, roots) -> str:
+    """does the layout cut an element that some accessor reads with a plain `iterchildren()` (no placeholder
+    following): the reference elements of a LinkAccessor, or an `ownedSpecification`?"""
+    global _LINK_XT
+    if _LINK_XT is None:
+        _LINK_XT = set()
+        for cls in capellambse.model._xtype.XTYPE_HANDLERS[None].values():
+            for name in dir(cls):
+                acc = getattr(cls, name, None)
+                if isinstance(acc, capellambse.model.LinkAccessor):
+                    _LINK_XT |= set(acc.xtypes)
+    for r in roots:
+        e = els_m[r]
+        if e.get(XSI_T) in _LINK_XT or e.tag == "ownedSpecification":
+            return "link-element-or-specification-is-fragment-root"
+    return "structural-cut"
 
 
 def semantic_elements(mdl):
@@ -179,6 +202,7 @@ def search_digest(mdl, elem, xtypes) -> dict:
     return d
 
 
+SCAN_BASED = {"ElementRelationAccessor", "RequirementsRelationAccessor"}
 SEARCH_XT = [None, "LogicalFunction", "LogicalComponent", "SystemFunction", "PhysicalComponent", "FunctionalExchange", "Class", "Part"]
 
 
@@ -228,7 +252,7 @@ def compare_layouts(ctx: Ctx, out: Outcome, spec: dict, mono, frag, lay, objs_bu
             cls = "parent" if k == "parent" else ("layer" if k == "layer" else "relation")
             if cls == "relation":
                 acc = getattr(type(mono.by_uuid(i)), k[1:], None)
-                cls += "-differs|" + type(acc).__name__
+                cls += "-differs|" + type(acc).__name__ + "|" + raw_read_cause(capellambse, els_m, roots)
                 out.find(f"api|{cls}", f"{els_m[i].get(XSI_T)} {i}: {k} monolithic={str(dm.get(k))[:120]} fragmented={str(df.get(k))[:120]}",
                          {"kind": "object", "layout": spec, "id": i, "what": k})
                 continue
@@ -395,7 +419,7 @@ def gen_specs(ctx: Ctx) -> list[dict]:
     for model, res in small:
         src = links.data_dir() / model
         main, _ = fragmenter.find_main(src)
-        cands = [c for c in fragmenter.candidate_cut_points(src.parent / main) if c[2] >= int(os.environ.get('C06_MINSIZE', '2'))]
+        cands = [c for c in fragmenter.candidate_cut_points(src.parent / main) if c[2] >= (1 if ctx.thorough else 2)]
         if not ctx.thorough:
             ctx.rng.shuffle(cands)
             cands = cands[: max(6, len(cands) // 5)]
